@@ -54,6 +54,10 @@ type OPTarget struct {
 	SigH     string   `json:"sig_h,omitempty"`     // custom signature header
 	Partial  bool     `json:"partial,omitempty"`   // a deliver block with a timeout but no retry line
 	PathTail string   `json:"path_tail,omitempty"` // extra path segment (escaping)
+	// Route: 0 = /fan, 1 = /fan2. ShareURL: a target of /fan2 that has the very URL of target 0 (of /fan),
+	// with settings of its own
+	Route    int  `json:"route,omitempty"`
+	ShareURL bool `json:"share_url,omitempty"`
 }
 
 type OPCase struct {
@@ -63,6 +67,11 @@ type OPCase struct {
 	Secrets []OPVersion `json:"secrets,omitempty"`
 	Targets []OPTarget  `json:"targets"`
 	Body    []byte      `json:"body"`
+	// Reload: after the first round the config file is rewritten and the process gets SIGHUP:
+	// "add-route" only adds a pull route; "expire-secret" also moves the valid_until of ExpireID into
+	// the past. Then a second round is delivered and judged by whichever configuration is in force.
+	Reload   string `json:"reload,omitempty"`
+	ExpireID string `json:"expire_id,omitempty"`
 }
 
 var (
@@ -124,7 +133,7 @@ func genOPCase(focus string) *rapid.Generator[OPCase] {
 		}
 		// secret versions: windows days away from now
 		ns := rapid.IntRange(0, 5).Draw(t, "nsecrets")
-		if focus == "C17" {
+		if focus == "C17" || focus == "C18" {
 			ns = rapid.IntRange(2, 6).Draw(t, "nsecrets17")
 		}
 		usedFrom := map[int]bool{}
@@ -155,7 +164,7 @@ func genOPCase(focus string) *rapid.Generator[OPCase] {
 			tg.RetryMax = rapid.SampledFrom([]int{-1, -1, 1, 2, 4, 5}).Draw(t, "retry_max")
 			tg.Partial = tg.RetryMax == -1 && rapid.Bool().Draw(t, "partial")
 			signKinds := []string{"", "", "inline", "refs"}
-			if focus == "C17" {
+			if focus == "C17" || focus == "C18" {
 				signKinds = []string{"", "inline", "refs", "refs", "refs"}
 			}
 			tg.Sign = rapid.SampledFrom(signKinds).Draw(t, "sign")
@@ -175,7 +184,31 @@ func genOPCase(focus string) *rapid.Generator[OPCase] {
 				tg.SigH = "X-Webhook-Signature"
 			}
 			tg.PathTail = rapid.SampledFrom([]string{"", "", "a b", "x%2Fy", "é"}).Draw(t, "path_tail")
+			if k > 0 && rapid.IntRange(0, 2).Draw(t, "second_route") == 0 {
+				tg.Route = 1
+				if c.Targets[0].Route == 0 && rapid.Bool().Draw(t, "share_url") {
+					// same URL as target 0, other route, own settings (the capture server answers one way per URL)
+					tg.ShareURL, tg.Host, tg.PathTail, tg.Behave = true, c.Targets[0].Host, c.Targets[0].PathTail, c.Targets[0].Behave
+				}
+			}
 			c.Targets = append(c.Targets, tg)
+		}
+		reloadDraw := rapid.IntRange(0, 15).Draw(t, "reload")
+		if focus == "C18" {
+			reloadDraw %= 3
+		}
+		switch reloadDraw {
+		case 0:
+			c.Reload = "add-route"
+		case 1, 2:
+			// only meaningful when some signing target references a version
+			var refs []string
+			for _, tg := range c.Targets {
+				refs = append(refs, tg.Refs...)
+			}
+			if len(refs) > 0 {
+				c.Reload, c.ExpireID = "expire-secret", rapid.SampledFrom(refs).Draw(t, "expire_id")
+			}
 		}
 		c.Body = []byte(rapid.SampledFrom([]string{"{}", "{\"k\":1}", "", "\x00\xff binary"}).Draw(t, "body"))
 		return c
@@ -224,18 +257,19 @@ func runOutboundProcess(c OPCase, prop string) *fOutcome {
 	paths := make([]string, len(c.Targets))
 	urls := make([]string, len(c.Targets))
 	for k, tg := range c.Targets {
+		if tg.ShareURL && k > 0 {
+			paths[k], urls[k] = paths[0], urls[0]
+			continue
+		}
 		p := fmt.Sprintf("/c%d-%d/t%d", os.Getpid(), caseNo, k)
 		rawTail := ""
-		if tg.PathTail != "" {
-			// the config carries the URL as a client would write it
-			switch tg.PathTail {
-			case "a b":
-				rawTail, p = "/a%20b", p+"/a b"
-			case "x%2Fy":
-				rawTail, p = "/x%2Fy", p+"/x/y"
-			case "é":
-				rawTail, p = "/%C3%A9", p+"/é"
-			}
+		switch tg.PathTail {
+		case "a b":
+			rawTail, p = "/a%20b", p+"/a b"
+		case "x%2Fy":
+			rawTail, p = "/x%2Fy", p+"/x/y"
+		case "é":
+			rawTail, p = "/%C3%A9", p+"/é"
 		}
 		paths[k] = p
 		urls[k] = fmt.Sprintf("http://%s:%d/c%d-%d/t%d%s", tg.Host, port, os.Getpid(), caseNo, k, rawTail)
@@ -252,14 +286,21 @@ func runOutboundProcess(c OPCase, prop string) *fOutcome {
 		}
 		opMu.Unlock()
 	}()
+	routeNames := []string{"/fan", "/fan2"}
+	hasRoute2 := false
+	for _, tg := range c.Targets {
+		if tg.Route == 1 {
+			hasRoute2 = true
+		}
+	}
 
 	var cfg strings.Builder
-	build := func(pIn, pAdmin int) {
+	build := func(pIn, pAdmin, pPull int, secrets []OPVersion, extraRoute bool) {
 		cfg.Reset()
-		fmt.Fprintf(&cfg, "ingress { listen 127.0.0.1:%d }\nadmin_api { listen 127.0.0.1:%d }\n", pIn, pAdmin)
-		if len(c.Secrets) > 0 {
+		fmt.Fprintf(&cfg, "ingress { listen 127.0.0.1:%d }\nadmin_api { listen 127.0.0.1:%d }\npull_api {\n  listen 127.0.0.1:%d\n  auth token raw:t\n}\n", pIn, pAdmin, pPull)
+		if len(secrets) > 0 {
 			cfg.WriteString("secrets {\n")
-			for _, v := range c.Secrets {
+			for _, v := range secrets {
 				fmt.Fprintf(&cfg, "  secret %s {\n    value %s\n    valid_from %s\n", q(v.ID), q("raw:key-of-"+v.ID), q(day(v.FromD)))
 				if v.UntilD != 0 {
 					fmt.Fprintf(&cfg, "    valid_until %s\n", q(day(v.UntilD)))
@@ -276,47 +317,60 @@ func runOutboundProcess(c OPCase, prop string) *fOutcome {
 			fmt.Fprintf(&cfg, "    deny %s\n", q(r))
 		}
 		fmt.Fprintf(&cfg, "  }\n  deliver {\n    %s\n    timeout 20s\n  }\n}\n", opRetryLine(c.DefMax))
-		cfg.WriteString("/fan {\n")
-		for k, tg := range c.Targets {
-			fmt.Fprintf(&cfg, "  deliver %s {\n", q(urls[k]))
-			if tg.RetryMax >= 0 {
-				fmt.Fprintf(&cfg, "    %s\n", opRetryLine(tg.RetryMax))
+		for ri, rn := range routeNames {
+			if ri == 1 && !hasRoute2 {
+				continue
 			}
-			if tg.Partial {
-				cfg.WriteString("    timeout 21s\n")
-			}
-			switch tg.Sign {
-			case "inline":
-				fmt.Fprintf(&cfg, "    sign hmac %s\n", q(fmt.Sprintf("raw:inline-%d", k)))
-			case "refs":
-				for _, id := range tg.Refs {
-					fmt.Fprintf(&cfg, "    sign hmac secret_ref %s\n", q(id))
+			fmt.Fprintf(&cfg, "%s {\n", rn)
+			for k, tg := range c.Targets {
+				if tg.Route != ri {
+					continue
 				}
-				if tg.Select != "" {
-					fmt.Fprintf(&cfg, "    sign secret_selection %s\n", tg.Select)
+				fmt.Fprintf(&cfg, "  deliver %s {\n", q(urls[k]))
+				if tg.RetryMax >= 0 {
+					fmt.Fprintf(&cfg, "    %s\n", opRetryLine(tg.RetryMax))
 				}
+				if tg.Partial {
+					cfg.WriteString("    timeout 21s\n")
+				}
+				switch tg.Sign {
+				case "inline":
+					fmt.Fprintf(&cfg, "    sign hmac %s\n", q(fmt.Sprintf("raw:inline-%d", k)))
+				case "refs":
+					for _, id := range tg.Refs {
+						fmt.Fprintf(&cfg, "    sign hmac secret_ref %s\n", q(id))
+					}
+					if tg.Select != "" {
+						fmt.Fprintf(&cfg, "    sign secret_selection %s\n", tg.Select)
+					}
+				}
+				if tg.SigH != "" {
+					fmt.Fprintf(&cfg, "    sign signature_header %s\n", q(tg.SigH))
+				}
+				cfg.WriteString("  }\n")
 			}
-			if tg.SigH != "" {
-				fmt.Fprintf(&cfg, "    sign signature_header %s\n", q(tg.SigH))
-			}
-			cfg.WriteString("  }\n")
+			cfg.WriteString("}\n")
 		}
-		cfg.WriteString("}\n")
+		// an always-present pull route keeps "has pull routes" stable; the reload adds another one
+		cfg.WriteString("/keep {\n  pull { path /pull/keep }\n}\n")
+		if extraRoute {
+			cfg.WriteString("/new {\n  pull { path /pull/new }\n}\n")
+		}
 	}
 	cfgPath := filepath.Join(dir, "Hookaidofile")
 	dbPath := filepath.Join(dir, "q.db")
 
 	var cmd *exec.Cmd
 	var errb bytes.Buffer
-	var pIn, pAdmin int
+	var pIn, pAdmin, pPull int
 	started := false
 	for try := 0; try < 3 && !started; try++ {
-		ports := freePorts(2)
-		if len(ports) < 2 {
+		ports := freePorts(3)
+		if len(ports) < 3 {
 			break
 		}
-		pIn, pAdmin = ports[0], ports[1]
-		build(pIn, pAdmin)
+		pIn, pAdmin, pPull = ports[0], ports[1], ports[2]
+		build(pIn, pAdmin, pPull, c.Secrets, false)
 		_ = os.WriteFile(cfgPath, []byte(cfg.String()), 0o600)
 		errb.Reset()
 		cmd = exec.Command(bin, "run", "--config", cfgPath, "--db", dbPath, "--log-level", "error")
@@ -330,7 +384,7 @@ func runOutboundProcess(c OPCase, prop string) *fOutcome {
 		}
 		deadline := time.Now().Add(20 * time.Second)
 		ok := true
-		for _, p := range []int{pIn, pAdmin} {
+		for _, p := range []int{pIn, pAdmin, pPull} {
 			for !(waitPort(p, 50*time.Millisecond) && ownsPort(cmd.Process.Pid, p)) {
 				if exited(cmd.Process.Pid) || time.Now().After(deadline) {
 					ok = false
@@ -360,6 +414,7 @@ func runOutboundProcess(c OPCase, prop string) *fOutcome {
 		out.Labels["inconclusive-environment"] = true
 		return out
 	}
+	firstCfg := cfg.String()
 	stop := func() {
 		_ = cmd.Process.Signal(syscall.SIGTERM)
 		done := make(chan struct{})
@@ -382,232 +437,340 @@ func runOutboundProcess(c OPCase, prop string) *fOutcome {
 		b, _ := io.ReadAll(resp.Body)
 		return resp.StatusCode, b
 	}
-	resp, err := client.Post(fmt.Sprintf("http://127.0.0.1:%d/fan", pIn), "application/octet-stream", bytes.NewReader(c.Body))
-	if err != nil {
-		out.Skipped = "ingress request failed: " + err.Error()
-		out.Labels["inconclusive-environment"] = true
-		return out
+	post := func(path string, body []byte) int {
+		resp, err := client.Post(fmt.Sprintf("http://127.0.0.1:%d%s", pIn, path), "application/octet-stream", bytes.NewReader(body))
+		if err != nil {
+			return 0
+		}
+		_, _ = io.Copy(io.Discard, resp.Body)
+		resp.Body.Close()
+		return resp.StatusCode
 	}
-	_, _ = io.Copy(io.Discard, resp.Body)
-	resp.Body.Close()
-	if resp.StatusCode != 202 {
-		out.Failure = ffail("HARNESS", "ingress", 0, "POST /fan answered %d\n%s", resp.StatusCode, cfg.String())
-		return out
-	}
-	// ---- wait until nothing is queued or leased any more
 	type item struct {
 		ID     string `json:"id"`
+		Route  string `json:"route"`
 		Target string `json:"target"`
 		State  string `json:"state"`
 		Reason string `json:"dead_reason"`
 	}
-	var dead []item
-	settled := false
-	deadline := time.Now().Add(30 * time.Second)
-	for time.Now().Before(deadline) {
-		code, b := get(fmt.Sprintf("http://127.0.0.1:%d/messages?route=/fan&limit=100", pAdmin))
-		if code != 200 {
-			time.Sleep(20 * time.Millisecond)
-			continue
+	seenDead := map[string]bool{} // ids judged in an earlier round
+	bodyOf := func(route int, round string) []byte {
+		b := append([]byte(nil), c.Body...)
+		if route == 1 {
+			b = append(b, "#2"...)
 		}
-		var l struct {
-			Items []item `json:"items"`
-		}
-		_ = json.Unmarshal(b, &l)
-		active := 0
-		dead = dead[:0]
-		for _, it := range l.Items {
-			switch it.State {
-			case "queued", "leased":
-				active++
-			case "dead":
-				dead = append(dead, it)
+		return append(b, round...)
+	}
+
+	// round sends one request per route and judges what reached the targets under the given secret set
+	round := func(tag string, secrets []OPVersion) bool {
+		for ri, rn := range routeNames {
+			if ri == 1 && !hasRoute2 {
+				continue
+			}
+			switch code := post(rn, bodyOf(ri, tag)); {
+			case code == 0:
+				out.Skipped = "ingress request went unanswered (machine load)"
+				out.Labels["inconclusive-environment"] = true
+				return false
+			case code != 202:
+				out.Failure = ffail("HARNESS", "ingress", 0, "POST %s answered %d\n%s", rn, code, cfg.String())
+				return false
 			}
 		}
-		if active == 0 {
-			settled = true
-			break
-		}
-		time.Sleep(20 * time.Millisecond)
-	}
-	if !settled {
-		out.Skipped = "deliveries did not settle within 30s (machine load)"
-		out.Labels["inconclusive-time-budget"] = true
-		return out
-	}
-	// a late duplicate would arrive within a few backoff periods (<= 10 ms each)
-	time.Sleep(60 * time.Millisecond)
-	deadBy := map[string]item{}
-	for _, d := range dead {
-		deadBy[d.Target] = d
-	}
-	// dead reasons are listed by /dlq when /messages does not carry them
-	if len(dead) > 0 && dead[0].Reason == "" {
-		if code, b := get(fmt.Sprintf("http://127.0.0.1:%d/dlq?route=/fan&limit=100", pAdmin)); code == 200 {
+		// ---- wait until nothing is queued or leased any more
+		var dead []item
+		settled := false
+		deadline := time.Now().Add(30 * time.Second)
+		for time.Now().Before(deadline) {
+			code, b := get(fmt.Sprintf("http://127.0.0.1:%d/messages?limit=200", pAdmin))
+			if code != 200 {
+				time.Sleep(20 * time.Millisecond)
+				continue
+			}
 			var l struct {
 				Items []item `json:"items"`
 			}
 			_ = json.Unmarshal(b, &l)
+			active := 0
+			dead = dead[:0]
 			for _, it := range l.Items {
-				it.State = "dead"
-				deadBy[it.Target] = it
-			}
-		}
-	}
-
-	verByID := map[string]OPVersion{}
-	for _, v := range c.Secrets {
-		verByID[v.ID] = v
-	}
-	for k, tg := range c.Targets {
-		opMu.Lock()
-		reqs := append([]opReq(nil), opSeen[paths[k]]...)
-		opMu.Unlock()
-		d, isDead := deadBy[urls[k]]
-		desc := fmt.Sprintf("target %d %s (answers %d, retry %d, defaults %d, sign %s %v %s): %d request(s), dead=%v reason=%q\n%s",
-			k, urls[k], tg.Behave, tg.RetryMax, c.DefMax, tg.Sign, tg.Refs, tg.Select, len(reqs), isDead, d.Reason, cfg.String())
-
-		// ---- C16: egress policy
-		denied := false
-		for _, r := range c.Deny {
-			if opMatch(r, tg.Host) {
-				denied = true
-			}
-		}
-		if !denied && len(c.Allow) > 0 {
-			denied = true
-			for _, r := range c.Allow {
-				if r == "*" || opMatch(r, tg.Host) {
-					denied = false
+				if it.Route != "/fan" && it.Route != "/fan2" {
+					continue // the probe of the reloaded pull route waits for a consumer that never comes
+				}
+				switch it.State {
+				case "queued", "leased":
+					active++
+				case "dead":
+					if !seenDead[it.ID] {
+						dead = append(dead, it)
+					}
 				}
 			}
+			if active == 0 {
+				settled = true
+				break
+			}
+			time.Sleep(20 * time.Millisecond)
 		}
-		if denied {
-			out.Labels["policy-denied-target"] = true
-			if len(c.Deny)+len(c.Allow) >= 2 {
-				out.Labels["policy-several-rules"] = true
-				if prop == "C16" {
-					out.NonTriv = true
-				}
-			}
-			if len(reqs) > 0 {
-				out.Failure = ffail("C16", "request-to-denied-target", k, "the egress policy (allow %v deny %v) denies %s but %s", c.Allow, c.Deny, tg.Host, desc)
-				return out
-			}
-			if !isDead || d.Reason != "policy_denied" {
-				out.Failure = ffail("C16,C06", "denied-not-dead-lettered", k, "the egress policy (allow %v deny %v) denies %s: want dead:policy_denied; %s", c.Allow, c.Deny, tg.Host, desc)
-				return out
-			}
-			continue
+		if !settled {
+			out.Skipped = "deliveries did not settle within 30s (machine load)"
+			out.Labels["inconclusive-time-budget"] = true
+			return false
 		}
-		// ---- C17: which secret signs
-		wantSecret, signing, noneValid := "", tg.Sign != "", false
-		switch tg.Sign {
-		case "inline":
-			wantSecret = fmt.Sprintf("inline-%d", k)
-		case "refs":
-			var valid []OPVersion
-			for _, id := range tg.Refs {
-				v := verByID[id]
-				if v.FromD <= 0 && (v.UntilD == 0 || v.UntilD > 0) {
-					valid = append(valid, v)
+		// a late duplicate would arrive within a few backoff periods (<= 10 ms each)
+		time.Sleep(60 * time.Millisecond)
+		deadBy := map[string]item{}
+		for _, d := range dead {
+			deadBy[d.Route+"|"+d.Target] = d
+		}
+		// dead reasons are listed by /dlq when /messages does not carry them
+		if len(dead) > 0 && dead[0].Reason == "" {
+			if code, b := get(fmt.Sprintf("http://127.0.0.1:%d/dlq?limit=200", pAdmin)); code == 200 {
+				var l struct {
+					Items []item `json:"items"`
 				}
-			}
-			if len(valid) == 0 {
-				noneValid = true
-			} else {
-				sort.Slice(valid, func(i, j int) bool { return valid[i].FromD < valid[j].FromD })
-				pick := valid[len(valid)-1] // newest valid_from (default rule)
-				if tg.Select == "oldest_valid" {
-					pick = valid[0]
-				}
-				wantSecret = "key-of-" + pick.ID
-				if len(valid) >= 2 || len(valid) < len(tg.Refs) {
-					out.Labels["signing-choice-among-versions"] = true
-					if prop == "C17" {
-						out.NonTriv = true
+				_ = json.Unmarshal(b, &l)
+				for _, it := range l.Items {
+					if !seenDead[it.ID] {
+						it.State = "dead"
+						deadBy[it.Route+"|"+it.Target] = it
 					}
 				}
 			}
 		}
-		if noneValid {
-			out.Labels["signing-no-valid-version"] = true
-			if len(reqs) > 0 {
-				out.Failure = ffail("C17", "sent-without-valid-secret", k, "no referenced secret version is valid now, yet %s", desc)
-				return out
-			}
-			if !isDead {
-				out.Failure = ffail("C17,C06", "unsignable-not-dead-lettered", k, "no referenced secret version is valid now: the message must end in the DLQ; %s", desc)
-			}
-			continue
+		for _, d := range deadBy {
+			seenDead[d.ID] = true
 		}
-		// ---- C06: how often, how it ends
-		effMax := c.DefMax
-		if tg.RetryMax >= 0 {
-			effMax = tg.RetryMax
+
+		verByID := map[string]OPVersion{}
+		for _, v := range secrets {
+			verByID[v.ID] = v
 		}
-		wantReqs, wantEnd := 1, "delivered"
-		switch {
-		case tg.Behave >= 200 && tg.Behave <= 299:
-		case tg.Behave == 408 || tg.Behave == 429 || tg.Behave >= 500:
-			wantReqs, wantEnd = effMax+1, "dead:max_retries"
-			if tg.RetryMax < 0 && len(c.Targets) > 1 {
-				out.Labels["retry-inherited-next-to-override"] = true
+		for k, tg := range c.Targets {
+			body := bodyOf(tg.Route, tag)
+			opMu.Lock()
+			var reqs []opReq
+			for _, r := range opSeen[paths[k]] {
+				if bytes.Equal(r.Body, body) {
+					reqs = append(reqs, r)
+				}
 			}
-			if prop == "C06" {
-				out.NonTriv = true
+			opMu.Unlock()
+			d, isDead := deadBy[routeNames[tg.Route]+"|"+urls[k]]
+			desc := fmt.Sprintf("round %q target %d of %s %s (answers %d, retry %d, defaults %d, sign %s %v %s): %d request(s), dead=%v reason=%q\n%s",
+				tag, k, routeNames[tg.Route], urls[k], tg.Behave, tg.RetryMax, c.DefMax, tg.Sign, tg.Refs, tg.Select, len(reqs), isDead, d.Reason, cfg.String())
+			if tg.ShareURL {
+				out.Labels["url-shared-between-routes"] = true
 			}
-		case tg.Behave >= 400:
-			wantEnd = "dead:no_retry"
-		default: // 1xx/3xx: never a success; the statement does not say which failure
-			wantReqs, wantEnd = -1, "dead:*"
-		}
-		gotEnd := "delivered"
-		if isDead {
-			gotEnd = "dead:" + d.Reason
-		}
-		if wantEnd == "dead:*" {
-			if !isDead {
-				out.Failure = ffail("C06", "non-success-acked", k, "a %d answer was treated as success; %s", tg.Behave, desc)
-				return out
+
+			// ---- C16: egress policy
+			denied := false
+			for _, r := range c.Deny {
+				if opMatch(r, tg.Host) {
+					denied = true
+				}
 			}
-		} else if gotEnd != wantEnd || len(reqs) != wantReqs {
-			out.Failure = ffail("C06", "process-settlement", k, "want %d request(s) and end %s (effective retry.max %d); got end %s; %s", wantReqs, wantEnd, effMax, gotEnd, desc)
-			return out
-		}
-		out.Labels["end-"+strings.SplitN(gotEnd, ":", 2)[0]] = true
-		// ---- C17: every request that was sent carries the right signature over what was sent
-		sigH := "X-Hookaido-Signature"
-		if tg.SigH != "" {
-			sigH = tg.SigH
-		}
-		for i, r := range reqs {
-			if !bytes.Equal(r.Body, c.Body) {
-				out.Failure = ffail("C07,C17", "body-differs", k, "request %d carried %q, accepted %q; %s", i, r.Body, c.Body, desc)
-				return out
+			if !denied && len(c.Allow) > 0 {
+				denied = true
+				for _, r := range c.Allow {
+					if r == "*" || opMatch(r, tg.Host) {
+						denied = false
+					}
+				}
 			}
-			if !signing {
+			if denied {
+				out.Labels["policy-denied-target"] = true
+				if len(c.Deny)+len(c.Allow) >= 2 {
+					out.Labels["policy-several-rules"] = true
+					if prop == "C16" {
+						out.NonTriv = true
+					}
+				}
+				if len(reqs) > 0 {
+					out.Failure = ffail("C16", "request-to-denied-target", k, "the egress policy (allow %v deny %v) denies %s but %s", c.Allow, c.Deny, tg.Host, desc)
+					return false
+				}
+				if !isDead || d.Reason != "policy_denied" {
+					out.Failure = ffail("C16,C06", "denied-not-dead-lettered", k, "the egress policy (allow %v deny %v) denies %s: want dead:policy_denied; %s", c.Allow, c.Deny, tg.Host, desc)
+					return false
+				}
 				continue
 			}
-			tsv, sigv := r.Header.Values("X-Hookaido-Timestamp"), r.Header.Values(sigH)
-			if len(tsv) != 1 || len(sigv) != 1 {
-				out.Failure = ffail("C17", "signature-headers", k, "request %d carries timestamp header(s) %v and signature header(s) %v, want exactly one each; %s", i, tsv, sigv, desc)
-				return out
+			// ---- C17: which secret signs
+			wantSecret, signing, noneValid := "", tg.Sign != "", false
+			switch tg.Sign {
+			case "inline":
+				wantSecret = fmt.Sprintf("inline-%d", k)
+			case "refs":
+				var valid []OPVersion
+				for _, id := range tg.Refs {
+					v := verByID[id]
+					if v.FromD <= 0 && v.UntilD >= 0 { // UntilD 0: open-ended
+						valid = append(valid, v)
+					}
+				}
+				if len(valid) == 0 {
+					noneValid = true
+				} else {
+					sort.Slice(valid, func(i, j int) bool { return valid[i].FromD < valid[j].FromD })
+					pick := valid[len(valid)-1] // newest valid_from (default rule)
+					if tg.Select == "oldest_valid" {
+						pick = valid[0]
+					}
+					wantSecret = "key-of-" + pick.ID
+					if len(valid) >= 2 || len(valid) < len(tg.Refs) {
+						out.Labels["signing-choice-among-versions"] = true
+						if prop == "C17" {
+							out.NonTriv = true
+						}
+					}
+				}
 			}
-			ts, err := strconv.ParseInt(tsv[0], 10, 64)
-			if err != nil || ts < now.Unix()-5 || ts > time.Now().Unix()+5 {
-				out.Failure = ffail("C17", "timestamp", k, "request %d timestamp %q is not the signing time (case started %d); %s", i, tsv[0], now.Unix(), desc)
-				return out
+			if noneValid {
+				out.Labels["signing-no-valid-version"] = true
+				if len(reqs) > 0 {
+					out.Failure = ffail("C17", "sent-without-valid-secret", k, "no referenced secret version is valid now, yet %s", desc)
+					return false
+				}
+				if !isDead {
+					out.Failure = ffail("C17,C06", "unsignable-not-dead-lettered", k, "no referenced secret version is valid now: the message must end in the DLQ; %s", desc)
+					return false
+				}
+				continue
 			}
-			sum := sha256.Sum256(r.Body)
-			mac := hmac.New(sha256.New, []byte(wantSecret))
-			fmt.Fprintf(mac, "POST\n%s\n%d\n%s", r.Path, ts, hex.EncodeToString(sum[:]))
-			if want := hex.EncodeToString(mac.Sum(nil)); !strings.EqualFold(want, sigv[0]) {
-				out.Failure = ffail("C17", "process-signature", k, "request %d is not signed with %q over (POST, %s, %d, body): got %s; %s", i, wantSecret, r.Path, ts, sigv[0], desc)
-				return out
+			// ---- C06: how often, how it ends
+			effMax := c.DefMax
+			if tg.RetryMax >= 0 {
+				effMax = tg.RetryMax
 			}
-			out.Labels["signature-verified"] = true
+			wantReqs, wantEnd := 1, "delivered"
+			switch {
+			case tg.Behave >= 200 && tg.Behave <= 299:
+			case tg.Behave == 408 || tg.Behave == 429 || tg.Behave >= 500:
+				wantReqs, wantEnd = effMax+1, "dead:max_retries"
+				if tg.RetryMax < 0 && len(c.Targets) > 1 {
+					out.Labels["retry-inherited-next-to-override"] = true
+				}
+				if prop == "C06" {
+					out.NonTriv = true
+				}
+			case tg.Behave >= 400:
+				wantEnd = "dead:no_retry"
+			default: // 1xx/3xx: never a success; the statement does not say which failure
+				wantReqs, wantEnd = -1, "dead:*"
+			}
+			gotEnd := "delivered"
+			if isDead {
+				gotEnd = "dead:" + d.Reason
+			}
+			if wantEnd == "dead:*" {
+				if !isDead {
+					out.Failure = ffail("C06", "non-success-acked", k, "a %d answer was treated as success; %s", tg.Behave, desc)
+					return false
+				}
+			} else if gotEnd != wantEnd || len(reqs) != wantReqs {
+				out.Failure = ffail("C06", "process-settlement", k, "want %d request(s) and end %s (effective retry.max %d); got end %s; %s", wantReqs, wantEnd, effMax, gotEnd, desc)
+				return false
+			}
+			out.Labels["end-"+strings.SplitN(gotEnd, ":", 2)[0]] = true
+			// ---- C17: every request that was sent carries the right signature over what was sent
+			sigH := "X-Hookaido-Signature"
+			if tg.SigH != "" {
+				sigH = tg.SigH
+			}
+			for i, r := range reqs {
+				tsv, sigv := r.Header.Values("X-Hookaido-Timestamp"), r.Header.Values(sigH)
+				if !signing {
+					if len(sigv) > 0 && tg.ShareURL {
+						out.Failure = ffail("C17", "signed-though-unconfigured", k, "request %d carries a signature although this route's target has no signing configured; %s", i, desc)
+						return false
+					}
+					continue
+				}
+				if len(tsv) != 1 || len(sigv) != 1 {
+					out.Failure = ffail("C17", "signature-headers", k, "request %d carries timestamp header(s) %v and signature header(s) %v, want exactly one each; %s", i, tsv, sigv, desc)
+					return false
+				}
+				ts, err := strconv.ParseInt(tsv[0], 10, 64)
+				if err != nil || ts < now.Unix()-5 || ts > time.Now().Unix()+5 {
+					out.Failure = ffail("C17", "timestamp", k, "request %d timestamp %q is not the signing time (case started %d); %s", i, tsv[0], now.Unix(), desc)
+					return false
+				}
+				sum := sha256.Sum256(r.Body)
+				mac := hmac.New(sha256.New, []byte(wantSecret))
+				fmt.Fprintf(mac, "POST\n%s\n%d\n%s", r.Path, ts, hex.EncodeToString(sum[:]))
+				if want := hex.EncodeToString(mac.Sum(nil)); !strings.EqualFold(want, sigv[0]) {
+					out.Failure = ffail("C17", "process-signature", k, "request %d is not signed with %q over (POST, %s, %d, body): got %s; %s", i, wantSecret, r.Path, ts, sigv[0], desc)
+					return false
+				}
+				out.Labels["signature-verified"] = true
+			}
 		}
+		return true
+	}
+
+	if !round("", c.Secrets) {
+		return out
+	}
+	if c.Reload == "" {
+		return out
+	}
+	// ---- reload: rewrite the file, SIGHUP, find out which configuration is in force, deliver again
+	newSecrets := append([]OPVersion(nil), c.Secrets...)
+	if c.Reload == "expire-secret" {
+		for i := range newSecrets {
+			if newSecrets[i].ID == c.ExpireID {
+				if newSecrets[i].FromD > -2 {
+					newSecrets[i].FromD = -2 // keep valid_from before valid_until
+				}
+				newSecrets[i].UntilD = -1
+			}
+		}
+	}
+	build(pIn, pAdmin, pPull, newSecrets, true)
+	if err := os.WriteFile(cfgPath, []byte(cfg.String()), 0o600); err != nil {
+		out.Failure = ffail("HARNESS", "write", 0, "%v", err)
+		return out
+	}
+	_ = cmd.Process.Signal(syscall.SIGHUP)
+	applied := false
+	for deadline := time.Now().Add(1500 * time.Millisecond); time.Now().Before(deadline); {
+		if post("/new", []byte("probe")) == 202 {
+			applied = true
+			break
+		}
+		time.Sleep(40 * time.Millisecond)
+	}
+	inForce := c.Secrets
+	if applied {
+		inForce = newSecrets
+		out.Labels["reload-applied"] = true
+	} else {
+		// refused (or never happened): everything is as the first file said
+		out.Labels["reload-not-applied"] = true
+		cfg.Reset()
+		cfg.WriteString(firstCfg)
+	}
+	out.Labels["reload-"+c.Reload] = true
+	ok2 := round("@2", inForce)
+	if !applied && post("/new", []byte("probe")) == 202 {
+		// the reload was applied after all, later than the budget allowed (saturated machine): the second
+		// round ran across the switch and proves nothing
+		out.Failure = nil
+		out.Skipped = "the reload took effect later than 1.5s"
+		out.Labels["inconclusive-time-budget"] = true
+		return out
+	}
+	if !ok2 {
+		if f := out.Failure; f != nil && f.Prop != "HARNESS" {
+			f.Prop += ",C18"
+			f.Detail = fmt.Sprintf("after a reload (%s) that was %s: %s", c.Reload, map[bool]string{true: "applied (the new route answers)", false: "not applied (the new route does not exist)"}[applied], f.Detail)
+		}
+		return out
+	}
+	if prop == "C18" {
+		out.NonTriv = true
 	}
 	return out
 }
@@ -642,4 +805,17 @@ func TestProp_C16_OutboundProcess(t *testing.T) {
 
 func TestProp_C17_OutboundProcess(t *testing.T) {
 	frontProp(t, "C17", "TestProp_C17_OutboundProcess", genOPCase("C17"), opRun("C17"))
+}
+
+// TestProp_C18_OutboundReload: the same tier for C18's share - after SIGHUP the dispatcher signs,
+// retries and filters by the configuration that is in force for everything else.
+func TestProp_C18_OutboundReload(t *testing.T) {
+	gen := rapid.Custom(func(t *rapid.T) OPCase {
+		c := genOPCase("C18").Draw(t, "case")
+		if c.Reload == "" {
+			c.Reload = "add-route"
+		}
+		return c
+	})
+	frontProp(t, "C18", "TestProp_C18_OutboundReload", gen, opRun("C18"))
 }
